@@ -3,6 +3,7 @@ import GnoVerif.Proofs.C52Tok
 import GnoVerif.Proofs.C52Url
 import GnoVerif.Proofs.C52Dec
 import GnoVerif.Proofs.C52Link
+import GnoVerif.Spec.C52Writes
 /-!
 # C52 — gnoweb never turns realm output into executable web content
 
@@ -31,11 +32,17 @@ with the browser side given by `Spec/C52Html.lean` (`step`/`run` tokenizer, `dec
 * the order of check and escape matters: the pre-fix `renderGnoLink` (check on the raw
   destination) serves `javascript:` (`raw_check_order_counterexample`).
 
-NOT a theorem (correspondence / extracted facts / end-to-end oracle only): that every
-dynamic write in gnoweb/markdown/*.go passes through one of these escapers in one of these
-contexts (F: extract/expect/C52.writes.txt), that `WithUnsafe` is absent from the default
-configuration (F), goldmark's own parser and renderer (trusted; exercised by the
-end-to-end oracle on generated documents).
+* the whole element `renderGnoLink` writes is one `<a href rel title>` tag plus constant tags
+  and is safe (`link_element_tokens`, `link_element_safe`);
+* for every other renderer of gnoweb/markdown/*.go (translated from the source on every run),
+  every escaped value is written in one of those contexts (`renderers_holes_stable`).
+
+NOT a theorem (correspondence / extracted facts / end-to-end oracle only): that the
+translation `gvx c52flow` is faithful and the vetted finite sets (alert kinds) are right
+(F: C52.writes.txt, C52.alert.txt), that `WithUnsafe` is absent from the default
+configuration (F), goldmark's own parser and renderer, chroma and html/template (trusted;
+exercised by the end-to-end oracle on generated documents), and the composition of all of
+this into the statement for whole documents.
 -/
 namespace GnoVerif.C52
 
@@ -208,6 +215,31 @@ example : (tokenize (renderGnoLink basicLookup
        (B!"svg", [B!"class"]), (B!"use", [B!"href"]), (B!"use", []), (B!"svg", []), (B!"span", []),
        (B!"a", [])] := by
   decide
+
+/-! ## 6. every other renderer: each dynamic piece is written in a context it cannot leave -/
+
+/-- `Gen/C52Flow.lean` is the translation (by `gvx c52flow`, on every run) of every function of
+    gnoweb/markdown/*.go that writes HTML — forms, gno-foreign, columns, alerts, code expansion;
+    `ext_links.go` is covered by section 5 — into abstract programs over their writes, conditions
+    abstracted away.  Interpreted over sets of tokenizer states (`flowOK`): starting each goldmark
+    node renderer in the data state, EVERY escaped value / integer is written in text, inside a
+    quoted attribute value, a comment or a `<textarea>` (the contexts of section 3), every nested
+    renderer starts in the data state, and every renderer returns to the data state.
+    Together with section 3: no dynamic value can open a tag or add an attribute there. -/
+theorem renderers_holes_stable :
+    flowOK GnoVerif.Gen.C52Flow.funcs GnoVerif.Gen.C52Flow.roots = true := by
+  decide +kernel
+
+/-- the check is not vacuous: an unquoted attribute hole, or a hole right after a tag name, is rejected -/
+example : flowOK [("f", .write [[.lit (B!"<input value="), .escT, .lit (B!" />")]])] ["f"] = false := by
+  decide +kernel
+example : flowOK [("f", .write [[.lit (B!"<input value=\""), .escT, .lit (B!"\" />")]])] ["f"] = true := by
+  decide +kernel
+example : flowOK [("f", .seq [.write [[.lit (B!"<input")]], .write [[.escT]], .write [[.lit (B!">")]]])] ["f"]
+    = false := by decide +kernel
+/-- goldmark's escaper leaves `'` alone: it must not be used inside a single-quoted value -/
+example : flowOK [("f", .write [[.lit (B!"<a title='"), .escG, .lit (B!"'>")]])] ["f"] = false := by
+  decide +kernel
 
 /-- The pre-fix `renderGnoLink` — `IsDangerousURL` on the RAW destination, then
     `EscapeHTML(URLEscape(dest, true))` — serves a `javascript:` href: the witness of the
